@@ -259,3 +259,81 @@ def comparable(tree, ver):
     """restrict a model tree to the fields a code object of that version carries in xdis's vocabulary
     (gen.canon.code_fields) - the model already emits exactly those"""
     return tree
+
+
+# ---------------------------------------------------------------------------------------------------------------------
+# writer for the old layouts (1.5 - 2.2): the counterpart of Reader.code() above, used to re-lay-out the payload of a
+# Python 2.7 program in the field widths of an older version (no interpreter exists for those; the *reader* half of this
+# model is validated on the real 1.5 / 1.6 / 2.1 / 2.2 files of the corpus, and the writer against the reader on every case)
+def _unhex_float(h):
+    return struct.unpack("<d", struct.pack("<Q", int(h, 16)))[0]
+
+
+def dump_tree(t, ver):
+    """canonical tree of a Python 2 object -> marshal bytes in the layout of version `ver` (format version 0: text floats,
+    no interning)"""
+    ver = tuple(ver[:2])
+    k = t["t"]
+    if k == "none":
+        return b"N"
+    if k == "ellipsis":
+        return b"."
+    if k == "stopiter":
+        return b"S"
+    if k == "int":
+        v = int(t["v"], 0)
+        if -2 ** 31 <= v < 2 ** 31:
+            return b"i" + struct.pack("<i", v)
+        return b"I" + struct.pack("<q", v)
+    if k == "long2":
+        v = int(t["v"], 0)
+        a, digits = abs(v), []
+        while a:
+            digits.append(a & 0x7FFF)
+            a >>= 15
+        return b"l" + struct.pack("<i", -len(digits) if v < 0 else len(digits)) + b"".join(struct.pack("<H", d) for d in digits)
+    if k == "float":
+        r = repr(_unhex_float(t["v"])).encode("ascii")
+        return b"f" + bytes(bytearray([len(r)])) + r
+    if k == "complex":
+        out = b"x"
+        for h in t["v"]:
+            r = repr(_unhex_float(h)).encode("ascii")
+            out += bytes(bytearray([len(r)])) + r
+        return out
+    if k == "str2":
+        raw = bytes(bytearray.fromhex(t["v"]))
+        return b"s" + struct.pack("<i", len(raw)) + raw
+    if k == "text":
+        raw = u"".join(chr(c) if isinstance(chr(0), type(u"")) else unichr(c) for c in t["v"]).encode("utf-8", "surrogatepass")  # noqa: F821
+        return b"u" + struct.pack("<i", len(raw)) + raw
+    if k == "tuple":
+        return b"(" + struct.pack("<i", len(t["v"])) + b"".join(dump_tree(e, ver) for e in t["v"])
+    if k == "code":
+        d = t["v"]
+        num = (lambda f: struct.pack("<i", int(d[f]["v"]))) if ver >= (2, 3) else (lambda f: struct.pack("<h", int(d[f]["v"])))
+        out = b"c" + num("co_argcount") + num("co_nlocals")
+        if ver >= (1, 5):
+            out += num("co_stacksize")
+        out += num("co_flags")
+        for f in ("co_code", "co_consts", "co_names", "co_varnames"):
+            out += dump_tree(d[f], ver)
+        if ver >= (2, 1):
+            out += dump_tree(d["co_freevars"], ver) + dump_tree(d["co_cellvars"], ver)
+        out += dump_tree(d["co_filename"], ver) + dump_tree(d["co_name"], ver)
+        if ver >= (1, 5):
+            out += num("co_firstlineno") + dump_tree(d["co_lnotab"], ver)
+        return out
+    raise ValueError("cannot write %r in an old layout" % (k,))
+
+
+def restrict_tree(t, ver):
+    """the tree a file of version `ver` carries: nested code objects lose the fields that version does not have"""
+    if isinstance(t, dict):
+        if t.get("t") == "code":
+            return {"t": "code", "v": dict((f, restrict_tree(t["v"][f], ver)) for f in code_fields(ver) if f in t["v"])}
+        if isinstance(t.get("v"), list):
+            return {"t": t["t"], "v": [restrict_tree(e, ver) for e in t["v"]]}
+    if isinstance(t, list):
+        return [restrict_tree(e, ver) for e in t]
+    return t
